@@ -78,7 +78,8 @@ Proof. exact trun_pair_agree. Qed.
 Print Assumptions C03_trun_pair_agree.
 
 Theorem C03_senc_pair_agree : forall h body pre post,
-  hlen h = 8%N -> hsize h = (8 + lenN body)%N -> (hsize h < 4294967296)%N -> (zlen (pre ++ body ++ post) < two63)%Z ->
+  (hlen h = 8 \/ hlen h = 16)%N -> hsize h = (hlen h + lenN body)%N -> (hsize h < 9223372036854775808)%N ->
+  (zlen (pre ++ body ++ post) < two63)%Z ->
   agree_at (senc_after_body_r h body) (senc_sr h (mkR (pre ++ body ++ post) (zlen pre) false))
            (pre ++ body ++ post) (zlen pre + zlen body)%Z.
 Proof. exact senc_pair_agree. Qed.
@@ -103,8 +104,8 @@ Theorem C03_leaf_boxes_agree : forall nm body post,
 Proof. exact leaf_boxes_agree. Qed.
 Print Assumptions C03_leaf_boxes_agree.
 
-(* the compact-header guard is exact: behind a 16-byte header (never written by the encoders of trun and senc, so not a
-   canonical string) the two trun decoders and the two senc decoders differ; witnesses reproduced on the Go code by the T lines *)
+(* the compact-header guard is exact: behind a 16-byte header (never written by TrunBox.Encode, so not a
+   canonical string) the two trun decoders differ; witness reproduced on the Go code (T lines) *)
 Theorem C03_trun_large_header_differs :
   trun_body_r trun_large_hdr trun_large_body = Ok (mkTrun 0 256 0 0 [mkTS 0 0 0 0; mkTS 0 0 0 0]) /\
   trun_sr trun_large_hdr (rnew trun_large_body) = Err /\
@@ -113,11 +114,12 @@ Theorem C03_trun_large_header_differs :
 Proof. exact trun_large_header_differs. Qed.
 Print Assumptions C03_trun_large_header_differs.
 
-Theorem C03_senc_large_header_differs :
-  senc_after_body_r senc_large_hdr senc_large_body = Err /\
-  exists v s, senc_sr senc_large_hdr (rnew senc_large_body) = Ok (v, s) /\ se_raw v = [170]%N /\ rerr s = false.
-Proof. exact senc_large_header_differs. Qed.
-Print Assumptions C03_senc_large_header_differs.
+(* the senc pair also differed behind a 16-byte header at the pinned text (DecodeSencSR tested hdr.Size - 16); repaired in
+   /repo b8f1424 (another property's finding), the model follows the repaired text: both reject the former witness *)
+Theorem C03_senc_large_header_agrees :
+  senc_after_body_r senc_large_hdr senc_large_body = Err /\ senc_sr senc_large_hdr (rnew senc_large_body) = Err.
+Proof. exact senc_large_header_agrees. Qed.
+Print Assumptions C03_senc_large_header_agrees.
 
 (* ---- the leaf hypotheses of the framing theorems, instantiated with the pair models ----
    pair_leaves: DecodeBox / DecodeBoxSR dispatch trun, senc and mdat to the models of their own two decoders (every other leaf
